@@ -202,7 +202,7 @@ func checkC15(c *km.Ctx) {
 	// ---------- R-C15-2: DML through Query anywhere in the storage code
 	nSQL := 0
 	for _, fn := range c.P.AllFuncs {
-		if fn.Pkg == nil || fn.Pkg.Pkg.Path() != KMD {
+		if fn.Pkg == nil || !pkgIsKMD(fn.Pkg) {
 			continue
 		}
 		for _, ci := range km.CallsIn(fn) {
